@@ -164,12 +164,12 @@ Definition cur_of (nm : tname) : option trow := match nm with TTok r => Some r |
 
 (* character data of a text node outside CDATA: the white-space policy of the options, the documented SyncML
    <Type> rewrite, base64 for binary-flagged elements.  None = the conversion fails (base64 of nothing). *)
-Definition spec_text (l : xlang) (o : opts) (cur : option trow) (s : bytes) : option bytes :=
-  match text_policy o (mk_est 0 false false cur) s with
+Definition spec_text (l : xlang) (o : opts) (parent : pinfo) (cur : option trow) (s : bytes) : option bytes :=
+  match text_policy o parent (mk_est 0 false false cur) s with
   | None => Some []
   | Some c =>
     let tmp := syncml_type_rewrite l cur c in
-    if tag_is_binary cur then b64_enc tmp else Some tmp
+    if tag_is_binary (text_tag (mk_est 0 false false cur) parent) then b64_enc tmp else Some tmp
   end.
 
 Definition info_list (f : option trow -> node -> option (list xitem)) : option trow -> list node -> option (list xitem) :=
@@ -191,7 +191,7 @@ Fixpoint info_node (l : xlang) (o : opts) (parent : pinfo) (cur : option trow) (
     | Some items => Some [XE (tname_bytes nm) (spec_attrs l o parent nm attrs) (merge_items items)]
     | None => None
     end
-  | Text s => option_map (fun t => [XT t]) (spec_text l o cur s)
+  | Text s => option_map (fun t => [XT t]) (spec_text l o parent cur s)
   | _ => None
   end.
 
@@ -232,7 +232,7 @@ Fixpoint node_ok (l : xlang) (o : opts) (parent : pinfo) (cur : option trow) (n 
        | [] => true
        | x :: r => node_ok l o (pinfo_below parent nm) cur x && go None r
        end) (cur_of nm) ch
-  | Text s => chars_ok o s && negb (tag_is_binary cur)
+  | Text s => chars_ok o s && negb (tag_is_binary (text_tag (mk_est 0 false false cur) parent))
   | _ => false
   end.
 
@@ -768,14 +768,17 @@ Proof.
     match goal with |- context [if ?c then _ else _] => destruct c end; auto.
 Qed.
 
-Lemma text_policy_ext o s1 s2 c :
-  e_in_cdata s1 = e_in_cdata s2 -> e_cur_tag s1 = e_cur_tag s2 -> text_policy o s1 c = text_policy o s2 c.
-Proof. intros H1 H2. unfold text_policy. now rewrite H1, H2. Qed.
+Lemma text_tag_ext s1 s2 p : e_cur_tag s1 = e_cur_tag s2 -> text_tag s1 p = text_tag s2 p.
+Proof. intros H. unfold text_tag. now rewrite H. Qed.
 
-Lemma text_policy_chars o st s c : chars_ok o s = true -> text_policy o st s = Some c -> chars_ok o c = true.
+Lemma text_policy_ext o p s1 s2 c :
+  e_in_cdata s1 = e_in_cdata s2 -> e_cur_tag s1 = e_cur_tag s2 -> text_policy o p s1 c = text_policy o p s2 c.
+Proof. intros H1 H2. unfold text_policy. now rewrite H1, (text_tag_ext s1 s2 p H2). Qed.
+
+Lemma text_policy_chars o p st s c : chars_ok o s = true -> text_policy o p st s = Some c -> chars_ok o c = true.
 Proof.
   intros H. unfold text_policy.
-  destruct (negb (e_in_cdata st) && negb (tag_is_binary (e_cur_tag st)) && negb (is_canonical o)).
+  destruct (negb (e_in_cdata st) && negb (tag_is_binary (text_tag st p)) && negb (is_canonical o)).
   - destruct (o_ignore_empty o && only_ws s); [discriminate|]. intros E. injection E as <-.
     destruct (o_remove_blanks o); [now apply chars_ok_strip|exact H].
   - intros E. injection E as <-. exact H.
@@ -898,12 +901,13 @@ Proof.
   - (* text *)
     cbn [node_ok] in Hok. apply andb_true_iff in Hok as [Hok1 Hok2]. apply negb_true_iff in Hok2.
     cbn [enc_node] in Henc. unfold parse_text in Henc. cbn [info_node]. unfold spec_text.
-    rewrite (text_policy_ext o (mk_est 0 false false cur) s t) by (cbn; auto).
-    destruct (text_policy o s t) as [c|] eqn:EP.
-    + unfold xml_encode_text in Henc. rewrite Hc, Hcur, Hok2 in Henc. injection Henc as <- <-.
+    rewrite (text_tag_ext (mk_est 0 false false cur) s parent) in * by (cbn; auto).
+    rewrite (text_policy_ext o parent (mk_est 0 false false cur) s t) by (cbn; auto).
+    destruct (text_policy o parent s t) as [c|] eqn:EP.
+    + unfold xml_encode_text in Henc. rewrite Hc, Hok2 in Henc. rewrite Hcur in Henc. injection Henc as <- <-.
       split; [reflexivity|]. rewrite Hok2. eexists. split; [reflexivity|].
       intros pre tpre acc tail f x Hrun Hk. cbn [node_fuel Nat.add].
-      pose proof (text_policy_chars o s t c Hok1 EP) as Hch.
+      pose proof (text_policy_chars o parent s t c Hok1 EP) as Hch.
       pose proof (chars_ok_rewrite l o cur c Hch) as Hch2.
       pose proof (escape_run_ok o _ Hch2) as Hrun2.
       rewrite app_assoc. apply (Hk _ _ acc (run_ok_app _ _ _ _ Hrun Hrun2)).
@@ -958,36 +962,36 @@ Qed.
 (* the document is one root element *)
 Theorem read_enc_noindent l o nm attrs ch out :
   is_indent o = false -> lang_ok l = true ->
-  node_ok l o None None (Elt nm attrs ch) = true ->
+  node_ok l o proot None (Elt nm attrs ch) = true ->
   enc_xml_opts l o [Elt nm attrs ch] = XOk out ->
   exists items,
-    info_node l o None None (Elt nm attrs ch) = Some items /\
+    info_node l o proot None (Elt nm attrs ch) = Some items /\
     forall fuel, (node_fuel (Elt nm attrs ch) + 2 <= fuel)%nat -> read_xml fuel out = ROk (doc_of l items).
 Proof.
   intros Hi HL Hok Henc. unfold enc_xml_opts, enc_nodes in Henc. cbn [seq_nodes] in Henc.
-  destruct (enc_node l o None (est0 0) (Elt nm attrs ch)) as [[b s1]|e] eqn:E; [|discriminate].
+  destruct (enc_node l o proot (est0 0) (Elt nm attrs ch)) as [[b s1]|e] eqn:E; [|discriminate].
   assert (Hout : out = xml_header l o ++ b ++ []) by congruence. subst out. clear Henc.
-  destruct (node_main (Elt nm attrs ch) l o None None (est0 0) b s1 Hi HL eq_refl eq_refl Hok E) as (_ & its & Hinfo & Hread).
+  destruct (node_main (Elt nm attrs ch) l o proot None (est0 0) b s1 Hi HL eq_refl eq_refl Hok E) as (_ & its & Hinfo & Hread).
   exists its. split; [exact Hinfo|]. intros fuel Hfuel.
   rewrite app_nil_r. rewrite (header_read l o fuel b Hi HL).
   (* shape of the items and of the text *)
   pose proof Hinfo as Hinfo'. cbn [info_node] in Hinfo'.
-  destruct (info_list (info_node l o (pinfo_below None nm)) (cur_of nm) ch) as [cits|]; [|discriminate].
+  destruct (info_list (info_node l o (pinfo_below proot nm)) (cur_of nm) ch) as [cits|]; [|discriminate].
   injection Hinfo' as <-.
   assert (Hb : exists c1 rb, b = 60 :: c1 :: rb /\ is_name_start c1 = true).
-  { rewrite (enc_elt_noindent l o None (est0 0) nm attrs ch Hi) in E.
+  { rewrite (enc_elt_noindent l o proot (est0 0) nm attrs ch Hi) in E.
     cbn [node_ok] in Hok. apply andb_true_iff in Hok as [Hok _]. apply andb_true_iff in Hok as [Hok _].
     apply andb_true_iff in Hok as [Hok _]. destruct (name_not_special _ Hok) as (c1 & rn & En & Hs).
     destruct ch as [|c0 ch0].
     - injection E as <- _. unfold elt_open. rewrite En. cbn [app]. eauto.
-    - destruct (seq_nodes (enc_node l o (pinfo_below None nm)) (c0 :: ch0) (set_cur (cur_of nm) (est0 0))) as [[b4 s4]|]; [|discriminate].
+    - destruct (seq_nodes (enc_node l o (pinfo_below proot nm)) (c0 :: ch0) (set_cur (cur_of nm) (est0 0))) as [[b4 s4]|]; [|discriminate].
       injection E as <- _. unfold elt_open. rewrite En. cbn [app]. eauto. }
   destruct Hb as (c1 & rb & Eb & Hs1).
   assert (Hskip : skip_ws b = b) by (rewrite Eb; reflexivity). rewrite Hskip.
   unfold p_root. rewrite Eb, Hs1. rewrite <- Eb.
   replace fuel with (node_fuel (Elt nm attrs ch) + (fuel - node_fuel (Elt nm attrs ch)))%nat by lia.
   pose proof (Hread [] [] [] [60; 47] (fuel - node_fuel (Elt nm attrs ch))%nat
-                    ([XE (tname_bytes nm) (spec_attrs l o None nm attrs) (merge_items cits)], []) run_ok_nil) as HR.
+                    ([XE (tname_bytes nm) (spec_attrs l o proot nm attrs) (merge_items cits)], []) run_ok_nil) as HR.
   cbn [app] in HR. rewrite HR; [reflexivity|].
   intros pre2 tpre2 acc2 Hrun2 Heq. cbn [fold_left push_item push_text] in Heq.
   destruct (fuel - node_fuel (Elt nm attrs ch))%nat as [|[|f2]] eqn:Ef; [lia|lia|].
@@ -997,10 +1001,10 @@ Qed.
 (* the same, stated with the public options (wbxml_tree_to_xml's parameters) *)
 Corollary read_enc_compact_canonical l g indent keep_ws nm attrs ch out :
   g <> Indent -> lang_ok l = true ->
-  node_ok l (opts_of_params g indent keep_ws) None None (Elt nm attrs ch) = true ->
+  node_ok l (opts_of_params g indent keep_ws) proot None (Elt nm attrs ch) = true ->
   enc_xml l g indent keep_ws [Elt nm attrs ch] = XOk out ->
   exists items,
-    info_node l (opts_of_params g indent keep_ws) None None (Elt nm attrs ch) = Some items /\
+    info_node l (opts_of_params g indent keep_ws) proot None (Elt nm attrs ch) = Some items /\
     forall fuel, (node_fuel (Elt nm attrs ch) + 2 <= fuel)%nat -> read_xml fuel out = ROk (doc_of l items).
 Proof.
   intros Hg. apply read_enc_noindent. destruct g; [reflexivity|contradiction|reflexivity].
@@ -1043,12 +1047,13 @@ Fixpoint plain_attrs (n : node) : bool :=
   | _ => true
   end.
 
-Lemma spec_text_keep l o1 o2 cur s :
+Lemma spec_text_keep l o1 o2 parent cur s :
   o_ignore_empty o1 = false -> o_remove_blanks o1 = false -> o_ignore_empty o2 = false -> o_remove_blanks o2 = false ->
-  spec_text l o1 cur s = spec_text l o2 cur s.
+  spec_text l o1 parent cur s = spec_text l o2 parent cur s.
 Proof.
-  intros A B C D. unfold spec_text, text_policy. rewrite A, B, C, D. cbn [andb e_in_cdata e_cur_tag negb].
-  destruct (negb (tag_is_binary cur) && negb (is_canonical o1)), (negb (tag_is_binary cur) && negb (is_canonical o2)); reflexivity.
+  intros A B C D. unfold spec_text, text_policy. rewrite A, B, C, D. cbn [andb e_in_cdata negb].
+  destruct (negb (tag_is_binary (text_tag (mk_est 0 false false cur) parent)) && negb (is_canonical o1)),
+           (negb (tag_is_binary (text_tag (mk_est 0 false false cur) parent)) && negb (is_canonical o2)); reflexivity.
 Qed.
 
 Lemma c07_xml_info_indep : forall n l o1 o2 parent cur,
@@ -1063,14 +1068,14 @@ Proof.
       rewrite (Hx l o1 o2 (pinfo_below parent nm) c HS HC1). fold (info_list (info_node l o1 (pinfo_below parent nm))). fold (info_list (info_node l o2 (pinfo_below parent nm))).
       now rewrite (IH HC2 None). }
     now rewrite E.
-  - destruct HS as (A & B & C & D). cbn [info_node]. now rewrite (spec_text_keep l o1 o2 cur t A B C D).
+  - destruct HS as (A & B & C & D). cbn [info_node]. now rewrite (spec_text_keep l o1 o2 parent cur t A B C D).
 Qed.
 
 (* compact and canonical generation of one tree are read back as the same document *)
 Theorem c07_xml_compact_canonical l i1 i2 nm attrs ch out1 out2 :
   lang_ok l = true -> plain_attrs (Elt nm attrs ch) = true ->
-  node_ok l (opts_of_params Compact i1 true) None None (Elt nm attrs ch) = true ->
-  node_ok l (opts_of_params Canonical i2 true) None None (Elt nm attrs ch) = true ->
+  node_ok l (opts_of_params Compact i1 true) proot None (Elt nm attrs ch) = true ->
+  node_ok l (opts_of_params Canonical i2 true) proot None (Elt nm attrs ch) = true ->
   enc_xml l Compact i1 true [Elt nm attrs ch] = XOk out1 ->
   enc_xml l Canonical i2 true [Elt nm attrs ch] = XOk out2 ->
   forall fuel, (node_fuel (Elt nm attrs ch) + 2 <= fuel)%nat ->
@@ -1079,7 +1084,7 @@ Proof.
   intros HL HP H1 H2 E1 E2 fuel Hf.
   destruct (read_enc_compact_canonical l Compact i1 true nm attrs ch out1 ltac:(discriminate) HL H1 E1) as (it1 & I1 & R1).
   destruct (read_enc_compact_canonical l Canonical i2 true nm attrs ch out2 ltac:(discriminate) HL H2 E2) as (it2 & I2 & R2).
-  rewrite (c07_xml_info_indep _ l _ (opts_of_params Canonical i2 true) None None) in I1; [|repeat split|exact HP].
+  rewrite (c07_xml_info_indep _ l _ (opts_of_params Canonical i2 true) proot None) in I1; [|repeat split|exact HP].
   assert (it1 = it2) by congruence. subst it2.
   exists (doc_of l it1). split; [apply R1|apply R2]; exact Hf.
 Qed.
@@ -1099,26 +1104,26 @@ Qed.
 Definition text_opts_eq (o1 o2 : opts) : Prop :=
   is_canonical o1 = is_canonical o2 /\ o_ignore_empty o1 = o_ignore_empty o2 /\ o_remove_blanks o1 = o_remove_blanks o2.
 
-Lemma parse_text_opts l o1 o2 s c : text_opts_eq o1 o2 -> parse_text l o1 s c = parse_text l o2 s c.
+Lemma parse_text_opts l o1 o2 p s c : text_opts_eq o1 o2 -> parse_text l o1 p s c = parse_text l o2 p s c.
 Proof.
   intros (A & B & C). unfold parse_text, text_policy, xml_encode_text. now rewrite A, B, C.
 Qed.
 
-Lemma seq_text_opts l o1 o2 p1 p2 ch : all_text ch = true -> text_opts_eq o1 o2 ->
-  forall s, seq_nodes (enc_node l o1 p1) ch s = seq_nodes (enc_node l o2 p2) ch s.
+Lemma seq_text_opts l o1 o2 p1 ch : all_text ch = true -> text_opts_eq o1 o2 ->
+  forall s, seq_nodes (enc_node l o1 p1) ch s = seq_nodes (enc_node l o2 p1) ch s.
 Proof.
   intros HA HO. induction ch as [|n ch IH]; intros s; [reflexivity|].
   cbn [all_text forallb] in HA. apply andb_true_iff in HA as [H1 H2]. destruct n; try discriminate.
-  cbn [seq_nodes enc_node]. rewrite (parse_text_opts l o1 o2 s s0 HO).
-  destruct (parse_text l o2 s s0) as [[b1 s1]|]; [|reflexivity].
-  fold (seq_nodes (enc_node l o1 p1)). fold (seq_nodes (enc_node l o2 p2)). now rewrite (IH H2).
+  cbn [seq_nodes enc_node]. rewrite (parse_text_opts l o1 o2 p1 s s0 HO).
+  destruct (parse_text l o2 p1 s s0) as [[b1 s1]|]; [|reflexivity].
+  fold (seq_nodes (enc_node l o1 p1)). fold (seq_nodes (enc_node l o2 p1)). now rewrite (IH H2).
 Qed.
 
-Lemma parse_text_indent l o st c b s1 : parse_text l o st c = XOk (b, s1) -> e_indent s1 = e_indent st.
+Lemma parse_text_indent l o p st c b s1 : parse_text l o p st c = XOk (b, s1) -> e_indent s1 = e_indent st.
 Proof.
-  unfold parse_text. destruct (text_policy o st c); [|intros E; now injection E as _ <-].
+  unfold parse_text. destruct (text_policy o p st c); [|intros E; now injection E as _ <-].
   unfold xml_encode_text. destruct (e_in_cdata st); [intros E; now injection E as _ <-|].
-  destruct (tag_is_binary (e_cur_tag st)); [destruct (b64_enc _); [|discriminate]|]; intros E; now injection E as _ <-.
+  destruct (tag_is_binary (text_tag st p)); [destruct (b64_enc _); [|discriminate]|]; intros E; now injection E as _ <-.
 Qed.
 
 Lemma seq_text_indent l o p ch : all_text ch = true ->
@@ -1128,10 +1133,10 @@ Proof.
   - cbn in E. now injection E as _ <-.
   - cbn [all_text forallb] in HA. apply andb_true_iff in HA as [H1 H2]. destruct n; try discriminate.
     cbn [seq_nodes enc_node] in E.
-    destruct (parse_text l o st s) as [[b1 s1]|] eqn:EP; [|discriminate].
+    destruct (parse_text l o p st s) as [[b1 s1]|] eqn:EP; [|discriminate].
     fold (seq_nodes (enc_node l o p)) in E.
     destruct (seq_nodes (enc_node l o p) r (reset_cur s1)) as [[b2 s2]|] eqn:E2; [|discriminate].
-    injection E as _ <-. rewrite (IH H2 _ _ _ E2). cbn [reset_cur e_indent]. exact (parse_text_indent _ _ _ _ _ _ EP).
+    injection E as _ <-. rewrite (IH H2 _ _ _ E2). cbn [reset_cur e_indent]. exact (parse_text_indent _ _ _ _ _ _ _ EP).
 Qed.
 
 (* an element whose children are all text: indented generation writes the compact text of the element, preceded
@@ -1147,7 +1152,7 @@ Proof.
   unfold xml_encode_tag, xml_encode_end_attrs, xml_encode_end_tag, nl_if, indent_bytes in *.
   rewrite (all_text_no_child_elt ch HA) in *. cbn [is_indent o_gen o_delta andb] in *.
   destruct ch as [|c0 ch0]; [contradiction|].
-  rewrite (seq_text_opts l (mk_opts Indent delta ig rb) (mk_opts Compact 1 ig rb) (pinfo_below parent nm) (pinfo_below parent nm) (c0 :: ch0) HA) by (repeat split).
+  rewrite (seq_text_opts l (mk_opts Indent delta ig rb) (mk_opts Compact 1 ig rb) (pinfo_below parent nm) (c0 :: ch0) HA) by (repeat split).
   match type of Hc with context [seq_nodes ?f ?c ?st] => destruct (seq_nodes f c st) as [[b4 s4]|] eqn:E4; [|discriminate] end.
   assert (Hbc : bc = ([] ++ [60] ++ tname_bytes nm ++ xmlns_part l parent nm) ++
                      parse_attributes l (mk_opts Compact 1 ig rb) attrs ++ [62] ++ b4 ++
